@@ -311,10 +311,23 @@ fn part_c(rep: &Report) {
     for (first_label, prime) in [(Lbl::ReUse, Some(L3A)), (Lbl::ReUse, Some(L6A)), (L3A, None), (L6A, None), (Lbl::Bcast, None)] {
         let resolved = prime.unwrap_or(first_label);
         for total_counts in [0usize, 3, 6] {
+          for abandoned in ["none", "explicit-same-id", "reuse-same-id", "explicit-aliasing-id", "reuse-aliasing-id"] {
             for crc_label in [vec![], L3A.bytes(), L6A.bytes()] {
                 let total = (x.len() + 2 + total_counts) as u16;
                 let crc = crc_ref(total, 0x0800, &crc_label, &x);
                 let mut seq: Vec<Vec<u8>> = vec![];
+                // an earlier train left unfinished in the slot the train under test is going to claim: what the
+                // receiver recomputes must depend on the first fragment of THIS train only
+                let y = [0x21u8, 0x22, 0x23];
+                match abandoned {
+                    "explicit-same-id" => seq.push(Desc::first(L3B, 0x86DD, 0, 9 + 3, &y).print()),
+                    "explicit-aliasing-id" => seq.push(Desc::first(L3B, 0x86DD, 2, 9 + 3, &y).print()),
+                    "reuse-same-id" | "reuse-aliasing-id" => {
+                        seq.push(Desc::complete(L3B, 0x86DD, &[0x7B]).print());
+                        seq.push(Desc::first(Lbl::ReUse, 0x86DD, if abandoned == "reuse-same-id" { 0 } else { 2 }, 9, &y).print());
+                    }
+                    _ => {}
+                }
                 if let Some(pl) = prime {
                     seq.push(Desc::complete(pl, 0x0800, &[0x7A]).print());
                 }
@@ -337,7 +350,7 @@ fn part_c(rep: &Report) {
                 let want_label: Vec<u8> = if first_label == Lbl::ReUse { vec![] } else { first_label.bytes() };
                 let conformant = total_counts == want_label.len() && crc_label == want_label;
                 acc.outcome(&format!("C:{}:{}", if conformant { "conformant" } else { "crafted" }, last.class()));
-                let wit = || json!({"first_fragment_label": first_label.short(), "receiver_label_memory": prime.map(|l| l.short()), "total_length": total, "trailer_is_crc_over_label": hex(&crc_label), "packets": seq.iter().map(|p| hex(p)).collect::<Vec<_>>(), "outcome": last.brief()});
+                let wit = || json!({"abandoned_train_before": abandoned, "first_fragment_label": first_label.short(), "receiver_label_memory": prime.map(|l| l.short()), "total_length": total, "trailer_is_crc_over_label": hex(&crc_label), "packets": seq.iter().map(|p| hex(p)).collect::<Vec<_>>(), "outcome": last.brief()});
                 for c in rec.take() {
                     if c.label != want_label || c.total != total || c.pt != 0x0800 || c.pdu != x {
                         rep.violation(&format!("C12|receiver|crc-arguments|{}", if first_label == Lbl::ReUse { "reuse" } else { "explicit" }), total_counts as u64, || (format!("decap recomputed the CRC over (total_len {}, pt {:#06x}, label {}, {} PDU bytes); the first fragment {} so the label argument must be {} and the other arguments the received total length {}, protocol type 0x0800 and the 6 reassembled bytes", c.total, c.pt, hex(&c.label), c.pdu.len(), if first_label == Lbl::ReUse { "used label re-use" } else { "carried its label" }, if want_label.is_empty() { "empty".to_string() } else { hex(&want_label) }, total), wit()));
@@ -351,8 +364,9 @@ fn part_c(rep: &Report) {
                     rep.violation("C12|receiver|crafted-train-delivered", total_counts as u64, || (format!("a train whose total length / trailer do not correspond to the label as written is delivered: {}", last.brief()), wit()));
                 }
             }
+          }
         }
     }
     rep.merge(acc);
-    rep.part(json!({"part":"C receiver-side hand-built trains","first_fragment_labels":5,"total_length_variants":3,"trailer_variants":3}));
+    rep.part(json!({"part":"C receiver-side hand-built trains","first_fragment_labels":5,"total_length_variants":3,"trailer_variants":3,"abandoned_trains_before":5}));
 }
